@@ -46,7 +46,7 @@ func genActions(t *rapid.T) []vk.AsyncAction {
 	n := rapid.IntRange(1, 40).Draw(t, "nactions")
 	var a []vk.AsyncAction
 	for i := 0; i < n; i++ {
-		a = append(a, vk.AsyncAction{K: rapid.SampledFrom([]string{"ev", "ev", "raw", "step", "dis", "ev", "raw", "raw0", "evl"}).Draw(t, "a")})
+		a = append(a, vk.AsyncAction{K: rapid.SampledFrom([]string{"ev", "ev", "raw", "step", "dis", "ev", "raw", "raw0", "evl", "rawL"}).Draw(t, "a")})
 	}
 	return a
 }
